@@ -11,25 +11,23 @@ Local Open Scope N_scope.
 (* ---------------------------------------------------------------------------------------------- *)
 (* RenameDuplicateShapes *)
 
-(* sibling shapes end up with pairwise distinct names -- provided no shape child is unnamed (H1) and no
-   child already carries a name "X_<number>" for the name X of a shape child (H2) *)
+(* sibling shapes end up with pairwise distinct names, for EVERY child list without unnamed shapes.
+   (Before the repair of C12-rename-candidate-taken -- the candidate test was "> 1" -- this needed the extra
+   hypothesis that no child is already called X_<number>, and [A_1, A, A] -> [A_1, A_1, A] refuted it.) *)
 Theorem C12_rename_distinct : forall orig : list cv_child,
   (forall k, In k orig -> cv_is_shape k = true -> cv_cname k <> []) ->
-  (forall k k' c, In k orig -> cv_is_shape k = true -> In k' orig -> cv_cname k' <> cv_suffixed (cv_cname k) c) ->
   exists r ren, cv_rename_node orig = Ok (r, ren) /\ NoDup (cv_shape_names r)
     /\ length r = length orig /\ map cv_is_shape r = map cv_is_shape orig.
 Proof. exact cv_rename_distinct. Qed.
 Print Assumptions C12_rename_distinct.
 
-(* without H2 it is false: [A_1, A, A] -> [A_1, A_1, A] (the loop tests "> 1" on the candidate name) *)
-Theorem C12_rename_distinct_refuted :
-  exists kids r, Forall (fun k => cv_is_shape k = true) kids
-    /\ cv_rename_node kids = Ok (r, true)
-    /\ map cv_cname r = [cv_A_1; cv_A_1; cv_A] /\ ~ NoDup (cv_shape_names r).
-Proof. exact cv_rename_distinct_refuted. Qed.
-Print Assumptions C12_rename_distinct_refuted.
+(* the loop (including the candidate search: a pigeonhole argument over the n+1 first candidates)
+   terminates with a result for every child list *)
+Theorem C12_rename_total : forall kids : list cv_child, exists r ren, cv_rename_node kids = Ok (r, ren).
+Proof. exact cv_rename_total. Qed.
+Print Assumptions C12_rename_total.
 
-(* without H1 it is false: unnamed shapes are never renamed *)
+(* without the hypothesis it is false: unnamed shapes are never renamed *)
 Theorem C12_rename_empty_refuted :
   exists kids r, cv_rename_node kids = Ok (r, false) /\ cv_shape_names r = [[]; []] /\ ~ NoDup (cv_shape_names r).
 Proof. exact cv_rename_empty_refuted. Qed.
@@ -100,6 +98,10 @@ Example C12_ex_rename :
   cv_rename_node [cv_sh cv_A; cv_sh cv_A; cv_sh [66]; cv_sh cv_A]
   = Ok ([cv_sh cv_A; cv_sh cv_A_1; cv_sh [66]; cv_sh [65; 95; 50]], true).
 Proof. exact cv_rename_distinct_ex. Qed.
+(* the former counterexample of DESIGN section 7 #7 *)
+Example C12_ex_former_witness :
+  cv_rename_node [cv_sh cv_A_1; cv_sh cv_A; cv_sh cv_A] = Ok ([cv_sh cv_A_1; cv_sh [65; 95; 50]; cv_sh cv_A], true).
+Proof. exact cv_rename_former_witness. Qed.
 Example C12_ex_child_node :
   cv_rename_file [CvNode [78; 49] [CvShape cv_A; CvShape cv_A]] = Ok ([CvNode [78; 49] [CvShape cv_A; CvShape cv_A_1]], true).
 Proof. exact cv_rename_child_node. Qed.
